@@ -86,7 +86,7 @@ def cases(tier, seed):
                             out.append({"kind": "model", "T": T, "rs": rs, "model": model, "j": j, "k": k, "d": list(d)})
                 out.append({"kind": "brute", "T": T, "rs": rs, "model": model, "seed": seed})
             for entry in ("align(stack)", "align_multi_templates", "group(list)", "group(mapping)"):
-                if T == 1 and entry != "align(stack)":
+                if T == 1 and entry == "group(mapping)":
                     continue
                 for model in ("ZNCC", "PCC"):
                     out.append({"kind": "loader", "T": T, "rs": rs, "model": model, "entry": entry})
@@ -299,7 +299,7 @@ def _run_loader(case):
             i = int(f["uid"][r])
             j, k = pairs[i]
             seen += 1
-            if T > 1:
+            if T > 1 or entry != "align(stack)":
                 lab = int(f["labels"][r])
                 if lab != j:
                     viol.append((sig("label"), f"molecule {i} planted (template {j}, rotation {k}) of T={T}, K={K}: labels={lab}"))
